@@ -14,11 +14,11 @@ BACKENDS = ["jaxley.stone", "jaxley.thomas", "jax.sparse"]
 
 
 def random_parents(rng, nb, topological=None):
-    """random rooted tree on branches 0..nb-1 with root 0; with probability 1/3 the non-root branches are relabelled by a random
+    """random rooted tree on branches 0..nb-1 with root 0; with probability 1/2 the non-root branches are relabelled by a random
     permutation, so that parents need not have a smaller index than their children (any parent vector, any sibling order)"""
     par = [-1] + [int(rng.integers(0, i)) for i in range(1, nb)]
     if topological is None:
-        topological = rng.random() < 0.67
+        topological = rng.random() < 0.5
     if topological or nb < 3:
         return par
     perm = [0] + [int(x) for x in 1 + rng.permutation(nb - 1)]
